@@ -552,6 +552,9 @@ class Interp:
                     cont[idx] = v
                     return
                 raise AnalysisError("%s:%d unsupported list store" % (func.qualname, target.lineno))
+            if type(cont) is dict:
+                cont[self._freeze_key(idx)] = v          # a dictionary the code itself built (a table, a memo)
+                return
             if isinstance(cont, Vec) and isinstance(idx, tuple) and len(idx) == 2 and isinstance(idx[0], int) and _full_slice(idx[1]):
                 val = self.lift(v)
                 if idx[0] == 0:
@@ -689,10 +692,17 @@ class Interp:
             o = ObjStub("class " + ci.name, {r: "registry:%s.%s" % (ci.name, r) for c in self.p.mro(ci) for r in c.registries})
             o.cls = ci
             return o
-        if node.id in ("abs", "len", "range", "min", "max", "float", "int", "enumerate", "zip", "round", "list", "slice", "getattr", "setattr", "hasattr", "isinstance", "tuple", "dict"):
+        if node.id in ("abs", "len", "range", "min", "max", "float", "int", "enumerate", "zip", "round", "list", "slice", "getattr", "setattr", "hasattr", "isinstance", "tuple", "dict", "bool", "type"):
             return ModuleRef("builtin:" + node.id)
         if node.id in mod.assigns and isinstance(mod.assigns[node.id], (ast.Dict, ast.List, ast.Tuple, ast.Constant)):
             return self.eval(mod.assigns[node.id], {}, func, depth)        # a module-level literal (a default table)
+        if node.id in mod.assigns and isinstance(mod.assigns[node.id], ast.Call) and isinstance(mod.assigns[node.id].func, ast.Name) \
+                and mod.assigns[node.id].func.id == "object" and not mod.assigns[node.id].args:
+            # a private sentinel `_MISSING = object()`: one object, equal to nothing else
+            key = (mod.short, node.id)
+            if not hasattr(self, "_sentinels"):
+                self._sentinels = {}
+            return self._sentinels.setdefault(key, ObjStub("sentinel " + node.id, {}))
         raise AnalysisError("%s:%d unknown name %s" % (func.qualname, node.lineno, node.id))
 
     def _super_class(self, call, env, func, attr):
@@ -765,6 +775,8 @@ class Interp:
             return LenOf(obj)
         if isinstance(obj, dict) and a in ("get", "keys", "values", "items"):
             return ("method", obj, a)
+        if type(obj) is dict and a in ("update", "setdefault", "pop", "copy"):
+            return ("method", obj, a)
         if isinstance(obj, ParamDict) and a in ("get", "keys"):
             return ("method", obj, a)
         if a in ("copy", "append", "keys", "astype") or a == "T":
@@ -773,6 +785,24 @@ class Interp:
 
     def e_List(self, node, env, func, depth):
         return [self.eval(e, env, func, depth) for e in node.elts]
+
+    def _freeze_key(self, k):
+        """hashable form of a dictionary key: tuples (lists here) structurally, abstract numbers by their canonical form where the
+        domain has one and by identity otherwise (a lookup that misses an equal key recomputes the value: what a complete
+        memo stores is what a recomputation gives)"""
+        if isinstance(k, (list, tuple)):
+            return tuple(self._freeze_key(x) for x in k)
+        if self.dom.is_value(k) and not isinstance(k, (int, float, Fraction, str, bool)):
+            alg = getattr(self.dom, "alg", None)
+            try:
+                return ("value", alg.key(k)) if alg is not None and hasattr(alg, "key") else ("value", id(k))
+            except Exception:
+                return ("value", id(k))
+        try:
+            hash(k)
+        except TypeError:
+            return ("object", id(k))
+        return k
 
     def e_Tuple(self, node, env, func, depth):
         return [self.eval(e, env, func, depth) for e in node.elts]
@@ -920,7 +950,9 @@ class Interp:
         if isinstance(op, (ast.In, ast.NotIn)):
             if isinstance(b, ParamDict):
                 r = a in b.present
-            elif isinstance(b, (list, tuple, dict)):
+            elif isinstance(b, dict):
+                r = self._freeze_key(a) in b
+            elif isinstance(b, (list, tuple)):
                 r = a in b
             else:
                 raise AnalysisError("unsupported membership test")
@@ -1122,6 +1154,7 @@ class Interp:
                 raise AnalysisError("non-constant dictionary key")
             return cont.get(idx)
         if isinstance(cont, dict):
+            idx = self._freeze_key(idx)
             if idx in cont:
                 return cont[idx]
             if hasattr(cont, "_fd_missing"):
@@ -1248,6 +1281,19 @@ class Interp:
                     return list(obj.values())
                 if name == "items":
                     return [[k, v] for k, v in obj.items()]
+                if type(obj) is dict:
+                    # a dictionary the code itself built: the mutating methods act on it
+                    if name == "update" and len(args) <= 1 and (not args or isinstance(args[0], dict)):
+                        if args:
+                            obj.update(args[0])
+                        obj.update(kwargs)
+                        return None
+                    if name == "setdefault" and len(args) == 2:
+                        return obj.setdefault(self._freeze_key(args[0]), args[1])
+                    if name == "pop" and args and self._freeze_key(args[0]) in obj:
+                        return obj.pop(self._freeze_key(args[0]))
+                    if name == "copy" and not args:
+                        return dict(obj)
             raise AnalysisError("%s:%d unsupported method .%s" % (func.qualname, ln, name))
         if isinstance(f, tuple) and f and f[0] == "lambda":
             _, lam, lenv, lfunc, dvals = f
@@ -1354,6 +1400,15 @@ class Interp:
                 return list(args[0])
             if base == "tuple" and isinstance(args[0], (list, tuple)):
                 return tuple(args[0])
+            if base == "bool" and len(args) == 1:
+                t = self.truth(args[0])
+                if t is None:
+                    raise AnalysisError("%s:%d bool() of a value the analysis does not decide" % (func.qualname, ln))
+                return bool(t)
+            if base == "type" and len(args) == 1:
+                # used as a component of a key / in an identity test: one tag per kind of abstract value
+                a = args[0]
+                return "<type %s>" % ("int" if isinstance(a, int) and not isinstance(a, bool) else "number" if (self.dom.is_value(a) or _is_conc(a)) else type(a).__name__)
             if base == "dict" and not args:
                 return dict(kwargs)
             if base == "dict" and len(args) == 1 and isinstance(args[0], dict):
